@@ -1557,4 +1557,43 @@ example : fa.cols.length > 1 ∧ fb.cols.length > 1 ∧ SortedL fa.idx ∧ Sorte
   .ts [0, 1, 2, 3] [true, false, true, false]
 #guard powDomain (.num (some (-1))) == false && powDomain (.num (some (1 / 2))) == false && powDomain (.num (some 3))
 
+/-! round g2: column policies `lj` / `rj`, `pow_` / comparisons / `min_ / max_` with frames - the probe of the real code recorded in
+docs/notes/C08.md (fa: days 0-2, columns a, b; fb: days 1-3, columns b, c) -/
+#guard frameCols .lj fa fb == ["a", "b"] && frameCols .rj fa fb == ["b", "c"] && frameCols .rj fa fx == ["x", "y"] &&
+  frameCols .lj fba fb == ["a", "b"] && frameCols .lj fba fba == ["b", "a"]
+#guard binopF .add .inner Option.none .lj (.df fa) (.df fb) ==
+  .df { idx := [1, 2], cols := [("a", [some 2, some 3]), ("b", [Option.none, some 6])] }
+#guard binopF .sub .inner Option.none .rj (.df fa) (.df fb) ==
+  .df { idx := [1, 2], cols := [("b", [Option.none, some 6]), ("c", [some (-5), some (-5)])] }
+#guard powF .outer Option.none .oj (.df fa) (.df fb) ==
+  .df { idx := [0, 1, 2, 3], cols := [("a", [some 1, Option.none, Option.none, Option.none]), ("b", [Option.none, Option.none, some 1, Option.none]),
+                                      ("c", [Option.none, Option.none, Option.none, Option.none])] }
+#guard cmpF .gt .inner Option.none .ij (.df fa) (.df fb) == .df { idx := [1, 2], cols := [("b", [boolCell false, boolCell true])] }
+#guard cmpF .gt .inner Option.none .oj (.df fa) (.df fb) ==
+  .df { idx := [1, 2], cols := [("a", [boolCell false, boolCell false]), ("b", [boolCell false, boolCell true]), ("c", [boolCell false, boolCell false])] }
+#guard mmListF .min .inner Option.none .oj [.df fa] [.df fb] ==
+  some (.df { idx := [1, 2], cols := [("a", [Option.none, Option.none]), ("b", [Option.none, some 0]), ("c", [Option.none, Option.none])] })
+#guard mmListF .max .inner Option.none .ij [.df fa, .num (some 2), .ts { idx := [1, 2, 4], vals := [some 10, some 20, some 30] }] [] ==
+  some (.df { idx := [1, 2], cols := [("a", [some 10, some 20]), ("b", [Option.none, some 20])] })
+#guard mmListF .min .inner Option.none .ij [.df fa] [.df fx] == some (.df { idx := [1, 2], cols := [] })
+-- ONE joint column beside a Series: `as_series` turns the frame into a Series (outside the hypothesis of `mmF_value`)
+#guard mmListF .min .inner Option.none .ij [.df fa, .df fb, .ts { idx := [1, 2, 4], vals := [some 10, some 20, some 30] }] [] ==
+  some (.ts { idx := [1, 2], vals := [Option.none, some 0] })
+#guard (aggCols .ij fa [fb]).length == 1 && (aggCols .oj fa [fb]).length == 3 && mmRaises .ij [.df fa, .df fx, .ts { idx := [], vals := [] }]
+#guard opList .add .outer Option.none [.ts { idx := [1, 2], vals := [some 1, some 2] }, .ts { idx := [2, 3], vals := [some 10, some 20] },
+    .ts { idx := [2, 4], vals := [some 100, some 200] }, .ts { idx := [2], vals := [some 1000] }] [] ==
+  some (.ts { idx := [1, 2, 3, 4], vals := [Option.none, some 1112, Option.none, Option.none] })
+
+/-- the hypotheses of `mmF_value` hold on a mix of frames, a Series and a scalar -/
+example : framesOfX [.df fa, .ts { idx := [1], vals := [some 1] }, .num (some 2), .df fb] = [fa, fb] ∧
+    (∀ g, FOperand.df g ∈ [FOperand.df fa, .ts { idx := [1], vals := [some 1] }, .num (some 2), .df fb] → g.cols.length > 1) := by
+  refine ⟨rfl, ?_⟩
+  intro g hg
+  simp only [List.mem_cons, FOperand.df.injEq, reduceCtorEq, false_or, List.not_mem_nil, or_false] at hg
+  rcases hg with rfl | rfl <;> decide
+
+/-- `XVal`: the unmasked division has infinities, the masked one has none -/
+example : (XVal.div (.fin 1) (.fin 0)).isInf = true ∧ (XVal.divMasked (.fin 1) (.fin 0)).isInf = false :=
+  ⟨by rw [div_unmasked_inf.1]; rfl, (div_never_inf (some 1) (some 0)).1⟩
+
 end Pyg.Props.C08
